@@ -29,7 +29,9 @@ const PLAYER_KINDS: &[&str] = &["team", "player", "playername", "ping", "face", 
 pub fn extras(rng: &mut Rng, n: usize, forbid: &[char]) -> Vec<(String, String)> {
     let mut out: Vec<(String, String)> = Vec::new();
     while out.len() < n {
-        let k = match rng.below(4) {
+        let k = match rng.below(5) {
+            // a key with one character from the edges of what other notations accept in a name
+            4 => format!("{}{}{}", rng.ident(4), rng.pick(&['\u{37e}', '\u{d7}', '\u{f7}', '\u{2000}', '\u{2041}', '\u{2190}', '\u{3000}', '\u{fdd0}', '\u{b7}', '\u{300}', ';', '!', '$', '%', '(', '+', ',', '/', '=', '?', '@', '[', '^', '`', '{', '|', '~']), rng.ident(3)),
             0 => rng.ident(12),
             1 => format!("{}_{}", rng.ident(6), rng.below(100)),
             2 => format!("sv_{}", rng.ident(8)),
